@@ -1,26 +1,624 @@
+// C11 — wire and storage encoding is canonical, lossless, and safe on arbitrary input.
+//
+// Bounded exhaustive INPUT enumeration on the real libs/ser codec and the real decoder entry points:
+//
+//	round trip   every value of every root type (ser registry + the unregistered consensus/storage types) that differs
+//	             from a populated default in <= k fields, every field ranging over a small boundary domain:
+//	             dec(enc(v)) == v, enc(dec(enc(v))) == enc(v), equal values give equal bytes
+//	map order    every insertion order of every key subset of size <= 4 gives one encoding
+//	hostile      for every valid encoding of the <= 1-deviation corpus: every truncation, every single-byte substitution
+//	             over a 16-byte set, every item of the encoding's item tree replaced by every member of a set of
+//	             hostile items (lengths of the enclosing lists recomputed), every registered type prefix replaced by
+//	             every other one; plus every byte string of length <= 3 over the set; into every entry point:
+//	             no panic, no unbounded allocation, and whatever is accepted round-trips like any other value
+//
+// Every decode runs in a worker subprocess (re-exec with --worker) under RLIMIT_AS = 4 GiB (what `ulimit -v` sets):
+// `fatal error: out of memory` cannot be recovered in-process. A worker records the case it is about to execute in
+// a shared-memory marker; when it dies the coordinator reads the marker, reports the case, and re-runs the unit
+// without it.
 package main
 
 import (
+	"bufio"
+	"bytes"
+	"encoding/json"
+	"flag"
 	"fmt"
+	"io"
+	"os"
+	osexec "os/exec"
+	"path/filepath"
+	"runtime"
+	"sort"
+	"strconv"
+	"strings"
+	"sync"
+	"syscall"
+	"time"
 
-	_ "github.com/lianxiangcloud/linkchain/blockchain"
-	_ "github.com/lianxiangcloud/linkchain/consensus"
-	_ "github.com/lianxiangcloud/linkchain/evidence"
+	"verif/vk"
+
 	"github.com/lianxiangcloud/linkchain/libs/log"
-	_ "github.com/lianxiangcloud/linkchain/libs/p2p/conn"
-	"github.com/lianxiangcloud/linkchain/libs/ser"
-	_ "github.com/lianxiangcloud/linkchain/mempool"
-	_ "github.com/lianxiangcloud/linkchain/state"
-	_ "github.com/lianxiangcloud/linkchain/types"
 )
+
+var (
+	workerFlag = flag.Bool("worker", false, "internal: run as a worker subprocess")
+	markFlag   = flag.String("mark", "", "internal: marker file of the worker")
+	listFlag   = flag.Bool("list", false, "print the (type, entry point) pairs and exit")
+)
+
+const memLimit = 4 << 30
+
+// ---- marker: the case a worker is about to execute ----
+
+type marker struct{ mem []byte }
+
+func openMarker(path string) *marker {
+	f, err := os.OpenFile(path, os.O_RDWR, 0600)
+	if err != nil {
+		vk.Fatalf("marker: %v", err)
+	}
+	defer f.Close()
+	mem, err := syscall.Mmap(int(f.Fd()), 0, 4096, syscall.PROT_READ|syscall.PROT_WRITE, syscall.MAP_SHARED)
+	if err != nil {
+		vk.Fatalf("marker mmap: %v", err)
+	}
+	return &marker{mem}
+}
+
+func (m *marker) set(id int, typ, entry, class string, in []byte) {
+	if m == nil {
+		return
+	}
+	d := m.mem[16:16]
+	d = append(d, typ...)
+	d = append(d, '\n')
+	d = append(d, entry...)
+	d = append(d, '\n')
+	d = append(d, class...)
+	d = append(d, '\n')
+	room := 4096 - 16 - len(d) - 32
+	n := len(in)
+	if n*2 > room {
+		n = room / 2
+	}
+	const hexd = "0123456789abcdef"
+	for _, b := range in[:n] {
+		d = append(d, hexd[b>>4], hexd[b&15])
+	}
+	if n < len(in) {
+		d = append(d, fmt.Sprintf("...(%d bytes)", len(in))...)
+	}
+	putU64(m.mem[8:16], uint64(len(d)))
+	putU64(m.mem[0:8], uint64(id))
+}
+
+func putU64(b []byte, v uint64) {
+	for i := 0; i < 8; i++ {
+		b[i] = byte(v >> (8 * uint(i)))
+	}
+}
+
+func getU64(b []byte) uint64 {
+	var v uint64
+	for i := 0; i < 8; i++ {
+		v |= uint64(b[i]) << (8 * uint(i))
+	}
+	return v
+}
+
+func readMarker(path string) (id int, typ, entry, class, input string) {
+	b, err := os.ReadFile(path)
+	if err != nil || len(b) < 16 {
+		return 0, "", "", "", ""
+	}
+	id = int(getU64(b[0:8]))
+	n := int(getU64(b[8:16]))
+	if n > len(b)-16 {
+		n = len(b) - 16
+	}
+	parts := strings.SplitN(string(b[16:16+n]), "\n", 4)
+	for len(parts) < 4 {
+		parts = append(parts, "")
+	}
+	return id, parts[0], parts[1], parts[2], parts[3]
+}
+
+// ---- worker ----
+
+func workerMain() {
+	lim := syscall.Rlimit{Cur: memLimit, Max: memLimit}
+	if err := syscall.Setrlimit(syscall.RLIMIT_AS, &lim); err != nil {
+		vk.Fatalf("setrlimit: %v", err)
+	}
+	runtime.GOMAXPROCS(2)
+	reg := loadRegistry()
+	roots := buildRoots(reg)
+	mark := openMarker(*markFlag)
+	in := bufio.NewReaderSize(os.Stdin, 1<<16)
+	out := bufio.NewWriter(os.Stdout)
+	for {
+		line, err := in.ReadBytes('\n')
+		if len(line) > 0 {
+			var u unit
+			if e := json.Unmarshal(line, &u); e != nil {
+				vk.Fatalf("worker: bad unit: %v", e)
+			}
+			mark.set(0, "", "", "", nil)
+			x := newExec(reg, roots, mark, &u)
+			res := x.run(&u)
+			mark.set(0, "", "", "", nil)
+			data, e := json.Marshal(res)
+			if e != nil {
+				vk.Fatalf("worker: marshal: %v", e)
+			}
+			out.Write(data)
+			out.WriteByte('\n')
+			out.Flush()
+		}
+		if err != nil {
+			return
+		}
+	}
+}
+
+// ---- coordinator ----
+
+type workerProc struct {
+	id     int
+	cmd    *osexec.Cmd
+	stdin  io.WriteCloser
+	stdout *bufio.Reader
+	stderr *bytes.Buffer
+	mark   string
+}
+
+func startWorker(id int, dir string) *workerProc {
+	exe, err := os.Executable()
+	if err != nil {
+		vk.Fatalf("executable: %v", err)
+	}
+	mark := filepath.Join(dir, fmt.Sprintf("w%d.mark", id))
+	if err := os.WriteFile(mark, make([]byte, 4096), 0600); err != nil {
+		vk.Fatalf("marker file: %v", err)
+	}
+	cmd := osexec.Command(exe, "--worker", "--mark", mark)
+	cmd.Env = append(os.Environ(), "GOTRACEBACK=single")
+	w := &workerProc{id: id, cmd: cmd, mark: mark, stderr: &bytes.Buffer{}}
+	w.stdin, _ = cmd.StdinPipe()
+	so, _ := cmd.StdoutPipe()
+	w.stdout = bufio.NewReaderSize(so, 1<<20)
+	cmd.Stderr = w.stderr
+	if err := cmd.Start(); err != nil {
+		vk.Fatalf("start worker: %v", err)
+	}
+	return w
+}
+
+func (w *workerProc) stop() {
+	w.stdin.Close()
+	done := make(chan struct{})
+	go func() { w.cmd.Wait(); close(done) }()
+	select {
+	case <-done:
+	case <-time.After(5 * time.Second):
+		w.cmd.Process.Kill()
+		<-done
+	}
+}
+
+type killer struct {
+	Unit                      int
+	Case                      int
+	Type, Entry, Class, Input string
+	Reason                    string // "oom" | "timeout" | "stack"
+	Stderr                    string
+}
+
+// runUnit executes one unit on worker w (restarting the worker when it dies); returns the result and the cases
+// that killed a worker.
+func runUnit(w **workerProc, dir string, u unit, caseTimeout time.Duration) (*unitResult, []killer) {
+	var killers []killer
+	for attempt := 0; ; attempt++ {
+		if attempt > 400 {
+			vk.Fatalf("unit %d (%s root %d): more than 400 worker deaths", u.ID, u.Kind, u.Root)
+		}
+		data, _ := json.Marshal(u)
+		if _, err := (*w).stdin.Write(append(data, '\n')); err != nil {
+			// worker already gone: restart once
+			(*w).cmd.Process.Kill()
+			(*w).cmd.Wait()
+			*w = startWorker((*w).id, dir)
+			continue
+		}
+		type rd struct {
+			line []byte
+			err  error
+		}
+		ch := make(chan rd, 1)
+		go func(r *bufio.Reader) {
+			l, err := r.ReadBytes('\n')
+			ch <- rd{l, err}
+		}((*w).stdout)
+		var got rd
+		timedOut := false
+		lastID, lastChange := -1, time.Now()
+	wait:
+		for {
+			select {
+			case got = <-ch:
+				break wait
+			case <-time.After(500 * time.Millisecond):
+				id, _, _, _, _ := readMarker((*w).mark)
+				if id != lastID {
+					lastID, lastChange = id, time.Now()
+				} else if id != 0 && time.Since(lastChange) > caseTimeout {
+					timedOut = true
+					(*w).cmd.Process.Kill()
+					got = <-ch
+					break wait
+				}
+			}
+		}
+		if got.err == nil {
+			var res unitResult
+			if err := json.Unmarshal(got.line, &res); err != nil {
+				vk.Fatalf("unit %d: bad worker result: %v", u.ID, err)
+			}
+			return &res, killers
+		}
+		// the worker died
+		(*w).cmd.Wait()
+		stderr := (*w).stderr.String()
+		id, typ, entry, class, input := readMarker((*w).mark)
+		tail := stderr
+		if len(tail) > 1500 {
+			tail = tail[:1500]
+		}
+		reason := ""
+		switch {
+		case timedOut:
+			reason = "timeout"
+		case strings.Contains(stderr, "out of memory") || strings.Contains(stderr, "cannot allocate memory"):
+			reason = "oom"
+		case strings.Contains(stderr, "stack overflow") || strings.Contains(stderr, "stack exceeds"):
+			reason = "stack"
+		}
+		if reason == "" || id == 0 {
+			vk.Fatalf("worker died outside a recorded case (unit %d kind %s root %d, marker case %d): %s", u.ID, u.Kind, u.Root, id, tail)
+		}
+		killers = append(killers, killer{Unit: u.ID, Case: id, Type: typ, Entry: entry, Class: class, Input: input, Reason: reason, Stderr: firstLine(stderr)})
+		u.Skip = append(u.Skip, id)
+		*w = startWorker((*w).id, dir)
+	}
+}
+
+func firstLine(s string) string {
+	for _, l := range strings.Split(s, "\n") {
+		if strings.TrimSpace(l) != "" {
+			return l
+		}
+	}
+	return ""
+}
+
+type plan struct {
+	rtDev      int
+	rtDepth    []int
+	corpusDev  int
+	corpusLim  []int
+	fullEntry  map[string]bool // entry points that get the full hostile corpus; the others get the <=0-deviation corpus
+	otherDev   int
+	hostShards int
+}
 
 func main() {
 	log.Root().SetHandler(log.DiscardHandler())
-	cs, is := ser.VerifC11Registry()
-	for _, c := range cs {
-		fmt.Printf("concrete %-50v name=%-40s disfix=%x ptr=%v\n", c.Type, c.Name, c.Disfix, c.PointerPreferred)
+	if len(os.Args) > 1 && os.Args[1] == "--worker" {
+		flag.Parse()
+		workerMain()
+		return
 	}
-	for _, i := range is {
-		fmt.Printf("iface %v nmethods=%d\n", i, i.NumMethod())
+	r := vk.Start("C11", "model_checking")
+	reg := loadRegistry()
+	roots := buildRoots(reg)
+	if *listFlag {
+		for _, rt := range roots {
+			for _, ep := range rt.Entries {
+				fmt.Printf("%-22s %-50s %s\n", rt.Origin, rt.Name, ep)
+			}
+		}
+		return
 	}
+	if r.ReplayPath != "" {
+		replayCase(r, reg, roots)
+		return
+	}
+
+	// ---- the plan ----
+	var pl plan
+	if r.Quick() {
+		pl = plan{rtDev: 2, rtDepth: []int{0, 2}, corpusDev: 1, corpusLim: []int{2}, otherDev: 0, hostShards: 1}
+	} else {
+		pl = plan{rtDev: 3, rtDepth: []int{0, 0, 1}, corpusDev: 1, corpusLim: []int{0}, otherDev: 1, hostShards: 4}
+	}
+	var units []unit
+	add := func(u unit) {
+		u.ID = len(units)
+		units = append(units, u)
+	}
+	slots := make([]int, len(roots))
+	for i := range roots {
+		_, c, _ := buildValue(reg, roots[i].T, nil)
+		slots[i] = len(c.pts)
+	}
+	add(unit{Kind: "maporder", Cost: 50})
+	for i := range roots {
+		n := 1
+		if slots[i] > 40 {
+			n = 4
+		}
+		if slots[i] > 120 {
+			n = 16
+		}
+		if !r.Quick() && slots[i] > 40 {
+			n *= 4
+		}
+		for s := 0; s < n; s++ {
+			add(unit{Kind: "rt", Root: i, Shard: s, NShards: n, MaxDev: pl.rtDev, DepthLim: pl.rtDepth, Cost: slots[i] * slots[i] / n})
+		}
+	}
+	for i := range roots {
+		for _, ep := range roots[i].Entries {
+			dev, lim := pl.corpusDev, pl.corpusLim
+			if ep != epBytes && r.Quick() {
+				dev, lim = pl.otherDev, nil
+			}
+			n := 1
+			if slots[i] > 60 {
+				n = pl.hostShards
+			}
+			for s := 0; s < n; s++ {
+				add(unit{Kind: "hostile", Root: i, Entry: ep, Shard: s, NShards: n, MaxDev: dev, DepthLim: lim, Cost: slots[i] * slots[i] * (dev*20 + 1) / n})
+			}
+		}
+		add(unit{Kind: "short", Root: i, Cost: 5})
+	}
+
+	if only := os.Getenv("C11_ONLY"); only != "" {
+		// development aid: restrict the run to root types whose name contains one of the given substrings
+		var keep []unit
+		for _, u := range units {
+			for _, sub := range strings.Split(only, ",") {
+				if u.Kind != "maporder" && strings.Contains(roots[u.Root].Name, sub) {
+					u.ID = len(keep)
+					keep = append(keep, u)
+					break
+				}
+			}
+		}
+		units = keep
+		r.Capped("C11_ONLY=" + only + ": restricted to a subset of the root types")
+	}
+
+	// ---- run ----
+	nw := runtime.NumCPU()
+	if v, err := strconv.Atoi(os.Getenv("VERIF_WORKERS")); err == nil && v > 0 {
+		nw = v
+	}
+	dir := fmt.Sprintf("/dev/shm/C11-%d", os.Getpid())
+	if err := os.MkdirAll(dir, 0700); err != nil {
+		dir = fmt.Sprintf("/tmp/C11-%d", os.Getpid())
+		if err := os.MkdirAll(dir, 0700); err != nil {
+			vk.Fatalf("scratch dir: %v", err)
+		}
+	}
+	defer os.RemoveAll(dir)
+	// expensive units first (better packing); results are merged in unit order, so the outcome does not depend on it
+	order := make([]int, len(units))
+	for i := range order {
+		order[i] = i
+	}
+	sort.SliceStable(order, func(a, b int) bool { return units[order[a]].Cost > units[order[b]].Cost })
+	results := make([]*unitResult, len(units))
+	killersBy := make([][]killer, len(units))
+	var mu sync.Mutex
+	next := 0
+	skippedUnits := 0
+	var wg sync.WaitGroup
+	caseTimeout := 30 * time.Second
+	for k := 0; k < nw; k++ {
+		wg.Add(1)
+		go func(k int) {
+			defer wg.Done()
+			w := startWorker(k, dir)
+			defer func() { w.stop() }()
+			for {
+				mu.Lock()
+				if next >= len(order) {
+					mu.Unlock()
+					return
+				}
+				ui := order[next]
+				next++
+				if r.Expired() {
+					skippedUnits++
+					mu.Unlock()
+					continue
+				}
+				mu.Unlock()
+				res, ks := runUnit(&w, dir, units[ui], caseTimeout)
+				mu.Lock()
+				results[ui], killersBy[ui] = res, ks
+				mu.Unlock()
+			}
+		}(k)
+	}
+	wg.Wait()
+	os.RemoveAll(dir)
+
+	// ---- merge (unit order: deterministic) ----
+	counters := map[string]int{}
+	pairs := map[string]int{}
+	outcomes := map[string]int{}
+	observed := map[string]string{}
+	opaque := map[string]bool{}
+	maxRatio, maxRatioAt := 0, ""
+	perRoot := make([]map[string]int, len(roots))
+	for i := range perRoot {
+		perRoot[i] = map[string]int{}
+	}
+	for ui, res := range results {
+		for _, k := range killersBy[ui] {
+			key := "decode-alloc-unbounded:" + k.Type
+			what := fmt.Sprintf("%s via %s: the process dies with `%s` (address space limited to %d GiB) while decoding %s", k.Type, k.Entry, k.Stderr, memLimit>>30, k.Input)
+			switch k.Reason {
+			case "timeout":
+				key = "decode-does-not-terminate:" + k.Type
+				what = fmt.Sprintf("%s via %s: no result after %v for input %s", k.Type, k.Entry, caseTimeout, k.Input)
+			case "stack":
+				key = "decode-stack-overflow:" + k.Type
+			}
+			r.Violation(key, what, map[string]interface{}{"phase": "hostile", "type": k.Type, "entry": k.Entry, "mutation": k.Class, "input": k.Input, "worker_died": k.Stderr})
+			counters["worker_deaths"]++
+		}
+		if res == nil {
+			continue
+		}
+		if res.Err != "" {
+			vk.Fatalf("unit %d: %s", ui, res.Err)
+		}
+		for k, v := range res.Counters {
+			counters[k] += v
+			if units[ui].Kind != "maporder" {
+				perRoot[units[ui].Root][k] += v
+			}
+		}
+		for k, v := range res.Pairs {
+			pairs[k] += v
+		}
+		for k, v := range res.Outcomes {
+			outcomes[k] += v
+		}
+		for k, v := range res.Observed {
+			if _, ok := observed[k]; !ok {
+				observed[k] = v
+			}
+		}
+		for _, o := range res.Opaque {
+			opaque[o] = true
+		}
+		if res.MaxRatioX > maxRatio {
+			maxRatio, maxRatioAt = res.MaxRatioX, res.MaxRatioAt
+		}
+		for _, v := range res.Violations {
+			for i := 0; i < v.Count; i++ {
+				r.Violation(v.Key, v.What, v.Replay)
+			}
+		}
+	}
+	if skippedUnits > 0 {
+		r.Capped(fmt.Sprintf("deadline: %d of %d units not run", skippedUnits, len(units)))
+	}
+
+	// ---- coverage ----
+	var pairList []string
+	for _, rt := range roots {
+		for _, ep := range rt.Entries {
+			pairList = append(pairList, fmt.Sprintf("%s | %s | %d decodes", rt.Name, ep, pairs[rt.Name+" | "+ep]))
+		}
+	}
+	var rootList []interface{}
+	for i, rt := range roots {
+		rootList = append(rootList, map[string]interface{}{"type": rt.Name, "origin": rt.Origin, "choice_points_on_default": slots[i],
+			"values": perRoot[i]["values"], "hostile_decodes": perRoot[i]["hostile_decodes"], "corpus_encodings": perRoot[i]["corpus_encodings"]})
+	}
+	var opq []string
+	for o := range opaque {
+		opq = append(opq, o)
+	}
+	sort.Strings(opq)
+	decodes := counters["roundtrip_decodes"] + counters["hostile_decodes"] + counters["accepted_value_roundtrips"] + counters["map_encodings"]
+	r.Set("root_types", len(roots))
+	r.Set("registered_concrete_types", len(reg.concrete))
+	r.Set("registered_interface_types", len(reg.ifaces))
+	r.Set("type_entrypoint_pairs", len(pairList))
+	r.Set("pairs", pairList)
+	r.Set("roots", rootList)
+	r.Set("units", len(units))
+	r.Set("workers", nw)
+	r.Set("counters", counters)
+	r.Set("decode_outcome_classes", outcomes)
+	r.Set("observations_outside_the_property", observed)
+	r.Set("fields_not_populated", opq)
+	r.Set("max_alloc_bytes_per_input_byte_x1000", maxRatio)
+	r.Set("max_alloc_case", maxRatioAt)
+	r.Set("bounds", map[string]interface{}{"round_trip_max_fields_off_default": pl.rtDev, "round_trip_depth_limit_per_deviation": pl.rtDepth,
+		"hostile_corpus_max_fields_off_default": pl.corpusDev, "substitution_bytes": fmt.Sprintf("%x", substSet), "hostile_items": len(hostileItems()),
+		"alloc_bound": fmt.Sprintf("%d + %d*len(input) (+%d for reader entry points)", allocConst, allocPerByte, 2*readerLimit), "address_space_limit": memLimit})
+	r.Set("states", counters["distinct_encodings"])
+	r.Set("transitions", decodes)
+	r.Set("traces_validated_against_impl", decodes)
+	r.Set("evaluations", decodes+counters["equal_value_encodings_compared"])
+	r.Set("distinct_nontrivial", counters["distinct_encodings"])
+	r.Set("distinct_decode_outcomes", len(outcomes))
+	r.Set("rule", "depth-1 input enumeration: state = distinct valid encoding produced by the real encoder (summed over units); transition = one execution of a real decoder entry point on a valid or hostile input, each checked against the oracle (round trip / no panic / allocation bound)")
+	r.Sample(map[string]interface{}{"example_pairs": pairList[:min(6, len(pairList))]})
+	r.Assume("values: every field ranges over a small boundary domain (see gen.go); at most k fields differ from the populated default; deeper combinations are outside the bound")
+	r.Assume("equality is taken over the fields the codec carries, modulo the nil/empty foldings documented in libs/ser (nil pointer = empty encoding, nil = empty slice/map, nil *big.Int = 0, time = (sec, nsec) in UTC)")
+	r.Assume("types.Log carries Address/Topics/Data only (types/log.go: the other fields are derived, not consensus fields)")
+	r.Assume("decoders are called the way the repository calls them: DecodeReader* with a limit of 1 MiB; the unlimited ser.Decode on a stream (documented as unsafe in decode.go) is not an entry point")
+	r.Assume("hostile WAL input is a correctly framed (crc, length) hostile payload; the framing itself belongs to C14")
+	r.Assume("Bulletproofs inside the real confidential transaction are the ideal functionality of /verif/xcrypto_model; the codec does not look at them")
+	if len(outcomes) < 5 {
+		vk.Fatalf("non-vacuity: only %d distinct decode outcomes", len(outcomes))
+	}
+	r.Finish()
+}
+
+func min(a, b int) int {
+	if a < b {
+		return a
+	}
+	return b
+}
+
+// replayCase re-runs one recorded case (in a worker subprocess, like the original run).
+func replayCase(r *vk.Run, reg *registry, roots []root) {
+	var rp struct {
+		Phase   string `json:"phase"`
+		Type    string `json:"type"`
+		Entry   string `json:"entry"`
+		Input   string `json:"input"`
+		Choices []int  `json:"choices"`
+	}
+	r.LoadReplay(&rp)
+	dir := fmt.Sprintf("/dev/shm/C11-%d", os.Getpid())
+	if err := os.MkdirAll(dir, 0700); err != nil {
+		vk.Fatalf("scratch dir: %v", err)
+	}
+	defer os.RemoveAll(dir)
+	u := unit{Kind: "replay-hostile", TypeName: rp.Type, Entry: rp.Entry, InputHex: rp.Input}
+	if rp.Phase == "round-trip" {
+		u = unit{Kind: "replay-rt", TypeName: rp.Type, Choices: rp.Choices}
+	}
+	if rp.Phase == "map-order" {
+		u = unit{Kind: "maporder"}
+	}
+	w := startWorker(0, dir)
+	res, ks := runUnit(&w, dir, u, 30*time.Second)
+	w.stop()
+	os.RemoveAll(dir)
+	for _, k := range ks {
+		r.Violation("decode-alloc-unbounded:"+k.Type, fmt.Sprintf("%s via %s: worker died (%s): %s", k.Type, k.Entry, k.Reason, k.Stderr), rp)
+	}
+	if res != nil {
+		if res.Err != "" {
+			vk.Fatalf("%s", res.Err)
+		}
+		for _, v := range res.Violations {
+			r.Violation(v.Key, v.What, v.Replay)
+		}
+	}
+	r.Finish()
 }
